@@ -438,13 +438,41 @@ fn check_living(c: &HCase, obs: &mut Obs) -> Verdict {
         return Verdict::Fail(e);
     }
     let mut mutated_after_write = false;
+    // a copy taken when the object is cloned stays alive: whatever is done to the object afterwards, the copy
+    // keeps serialising to the bytes it had, and to what its own accessors report
+    let mut aside: Option<(sourcemap::DecodedMap, Vec<u8>, usize)> = None;
     for (k, op) in c.ops.iter().enumerate() {
+        if matches!(op, HOp::CloneSelf) {
+            let copy = obj.clone();
+            match ser(&copy) {
+                Ok(b) => aside = Some((copy, b, k)),
+                Err(e) => return Verdict::Fail(format!("op {k}: serialising a clone: {e}")),
+            }
+            obs.class("clone-kept-alive");
+        }
         if let Err(e) = apply_hop(&mut obj, op, obs) {
             return Verdict::Fail(format!("op {k} {e}"));
         }
         mutated_after_write |= hop_mutates(op);
         if let Err(e) = verify(&obj, &format!("after op {k} {op:?} (ops so far {:?})", &c.ops[..=k])) {
             return Verdict::Fail(e);
+        }
+        if let Some((old, bytes, since)) = &aside {
+            let when = format!("after op {k} {op:?} (ops so far {:?}): the copy taken at op {since}", &c.ops[..=k]);
+            if let Err(e) = verify(old, &when) {
+                return Verdict::Fail(e);
+            }
+            match ser(old) {
+                Ok(b) if &b == bytes => {}
+                Ok(b) => {
+                    return Verdict::Fail(format!(
+                        "{when} serialises differently although nothing was done to it: {} then, {} now",
+                        String::from_utf8_lossy(bytes),
+                        String::from_utf8_lossy(&b)
+                    ))
+                }
+                Err(e) => return Verdict::Fail(format!("{when}: {e}")),
+            }
         }
     }
     if mutated_after_write && c.ops.len() >= 3 && c.base.tokens.len() >= 2 {
